@@ -6,12 +6,14 @@
 (* private objects are always marked private).                             *)
 (*                                                                         *)
 (* Object model  M = [objs, roots, depth]: objs maps a full name to        *)
-(*   [id, qid, name, cls, parent, priv, incontents, bases, mro,            *)
+(*   [id, qid, name, cls, parent, priv, incontents, inall, bases, mro,     *)
 (*    subclasses, doc, docsrc, xrefs, sumrefs, annrefs, initial, dupname,  *)
 (*    dupfull]   (qid = the percent-encoded full name, urllib.parse.quote) *)
 (*   incontents = FALSE for a superseded duplicate (System.handleDuplicate *)
 (*   keeps it in allobjects as "name 0" but parent.contents holds the new  *)
-(*   definition); xrefs / sumrefs / annrefs are the RESOLVED targets of    *)
+(*   definition); inall = registered in System.allobjects under its full   *)
+(*   name (FALSE when the two registries of the System disagree, C02);     *)
+(*   xrefs / sumrefs / annrefs are the RESOLVED targets of                 *)
 (*   the cross references in the docstring / its summary / annotations;    *)
 (*   docsrc is the object whose docstring is shown (inherited docstrings). *)
 (*                                                                         *)
@@ -56,7 +58,7 @@ vars == <<cid, feat, depth, nd, mdl, out, phase>>
 Feats == [dup : BOOLEAN, move : BOOLEAN, multi : BOOLEAN, nested : BOOLEAN]
 
 B(id, name, cls, parent, initial) ==
-  [id |-> id, qid |-> id, name |-> name, cls |-> cls, parent |-> parent, priv |-> "PUBLIC", incontents |-> TRUE,
+  [id |-> id, qid |-> id, name |-> name, cls |-> cls, parent |-> parent, priv |-> "PUBLIC", incontents |-> TRUE, inall |-> TRUE,
    bases |-> <<>>, mro |-> IF cls = "Class" THEN <<id>> ELSE <<>>, subclasses |-> {}, doc |-> TRUE, docsrc |-> id,
    xrefs |-> {}, sumrefs |-> {}, annrefs |-> {}, initial |-> initial, dupname |-> FALSE, dupfull |-> FALSE]
 
@@ -122,7 +124,7 @@ Skeleton(f, assign, d) ==
 (* 2. Object model read from the projection of a real System (file mode)   *)
 (***************************************************************************)
 Norm(o) == [id |-> o.id, qid |-> o.qid, name |-> o.name, cls |-> o.cls, parent |-> o.parent, priv |-> o.priv,
-            incontents |-> o.incontents, bases |-> o.bases, mro |-> o.mro, subclasses |-> Range(o.subclasses),
+            incontents |-> o.incontents, inall |-> o.inall, bases |-> o.bases, mro |-> o.mro, subclasses |-> Range(o.subclasses),
             doc |-> o.doc, docsrc |-> o.docsrc, xrefs |-> {}, sumrefs |-> {}, annrefs |-> {},
             initial |-> o.initial, dupname |-> o.dupname, dupfull |-> o.dupfull]
 FromProjection(c) == [objs |-> [i \in DOMAIN c.objs |-> Norm(c.objs[i])], roots |-> c.roots, depth |-> c.depth]
@@ -274,7 +276,7 @@ ModuleIndexEntries == {E("moduleIndex", "moduleIndex", Url(m), IsPrivate(m)) : m
 
 \* :84 findRootClasses / :130 subclassesFrom
 Documented(i) == Vis(i) /\ InTree(i)     \* util.is_documented() of the fix of superseded-duplicate-listed
-CIClasses == {c \in Ids : IsCls(c) /\ Vis(c) /\ (IF Fx("superseded-duplicate-listed") THEN InTree(c) ELSE ~Objs[c].dupname)}
+CIClasses == {c \in Ids : IsCls(c) /\ Objs[c].inall /\ Vis(c) /\ (IF Fx("superseded-duplicate-listed") THEN InTree(c) ELSE ~Objs[c].dupname)}
 CITop == {c \in CIClasses : Objs[c].bases = <<>> \/ \E j \in DOMAIN Objs[c].bases :
                                Objs[c].bases[j] \notin Ids \/ ~Vis(Objs[c].bases[j])}
 RECURSIVE CIReach(_)
@@ -289,7 +291,7 @@ ClassIndexLinks == {L("classIndex", Url(c), "classIndex") : c \in CIListed} \cup
 ClassIndexEntries == {E("classIndex", "classIndex", Url(c), ClassNodePrivate(c)) : c \in CIListed}
 
 \* :273 NameIndexPage, :330 UndocumentedSummaryPage, search.py:21, :118 : built from allobjects, visible only
-AllVisible == {i \in Ids : Vis(i) /\ (Fx("superseded-duplicate-listed") => InTree(i))}
+AllVisible == {i \in Ids : Objs[i].inall /\ Vis(i) /\ (Fx("superseded-duplicate-listed") => InTree(i))}
 Initials == {Objs[i].initial : i \in AllVisible}
 NameIndexLinks == {L("nameIndex", Url(i), "nameIndex") : i \in AllVisible}
                   \cup (IF Cardinality(Initials) > 1 THEN {L("nameIndex", [file |-> "nameIndex", frag |-> x], "letterlinks") : x \in Initials} ELSE {})
@@ -484,7 +486,7 @@ Diff(S) ==
       fsearch_missing |-> P.fsearch \ S.fsearch, fsearch_extra |-> S.fsearch \ P.fsearch]
 \* the realised project is the object model the skeleton describes (enum cases), as the real System sees it
 ModelDiff ==
-  LET flds(o) == [qid |-> o.qid, name |-> o.name, cls |-> o.cls, parent |-> o.parent, priv |-> o.priv, incontents |-> o.incontents,
+  LET flds(o) == [qid |-> o.qid, name |-> o.name, cls |-> o.cls, parent |-> o.parent, priv |-> o.priv, incontents |-> o.incontents, inall |-> o.inall,
                   bases |-> o.bases, mro |-> o.mro, subclasses |-> o.subclasses, doc |-> o.doc, docsrc |-> o.docsrc,
                   initial |-> o.initial, dupname |-> o.dupname, dupfull |-> o.dupfull]
       real == FromProjection(Case)
